@@ -80,7 +80,7 @@ func (s *sim) faultEnumerate(parent *stateBox, b *blockRec, env *common.BeaconBl
 		}
 		// every engine call x verdict
 		for e := range calls {
-			for _, verdict := range []string{"invalid", "error"} {
+			for _, verdict := range []string{"invalid", "error", "timeout", "valid+error"} {
 				box, _ := parent.copy()
 				eng.reset()
 				eng.armed, eng.failAt, eng.verdict = true, e, verdict
@@ -999,6 +999,40 @@ func (s *sim) checkAccessors(box *stateBox, where string) {
 		vsetter{"Eth1Data", func(c common.BeaconState) error { return c.SetEth1Data(e3) }, e3},
 		vsetter{"Slot", func(c common.BeaconState) error { return c.SetSlot(slot + 1) }, slot + 1},
 	)
+	// the vote counter counts the votes that are equal in ALL three fields (and the list length is the list's)
+	if ev, ok := fieldOf(raw, "Eth1DataVotes").(phase0.Eth1DataVotes); ok {
+		if vv, err := st.Eth1DataVotes(); err == nil {
+			if l, err := vv.Length(); err != nil || l != uint64(len(ev)) {
+				s.viol("C15", "getter/Eth1DataVotes.Length", fmt.Sprintf("%s (%s): %d (err %v), the state holds %d votes", where, forkName(st), l, err, len(ev)))
+				return
+			}
+			var probes []common.Eth1Data
+			if len(ev) > 0 {
+				x := ev[s.frng.Intn(len(ev))]
+				a, b, c := x, x, x
+				a.DepositRoot = fnvRoot("count-probe", 1)
+				b.DepositCount++
+				c.BlockHash = fnvRoot("count-probe", 2)
+				probes = append(probes, x, a, b, c)
+			} else {
+				probes = append(probes, common.Eth1Data{})
+			}
+			for _, pr := range probes {
+				want := uint64(0)
+				for _, e := range ev {
+					if e == pr {
+						want++
+					}
+				}
+				got, err := vv.Count(pr)
+				s.res.Stat("setter_checks", 1)
+				if err != nil || got != want {
+					s.viol("C15", "getter/Eth1DataVotes.Count", fmt.Sprintf("%s (%s): Count(%+v) = %d (err %v), the state holds %d such votes among %d", where, forkName(st), pr, got, err, want, len(ev)))
+					return
+				}
+			}
+		}
+	}
 	// list accessors: what is appended is what is stored, in that order
 	if hr, ok := fieldOf(raw, "HistoricalRoots").(phase0.HistoricalRoots); ok && uint64(len(hr)) < uint64(s.w.spec.HISTORICAL_ROOTS_LIMIT) {
 		nr := fnvRoot("hist-append", uint64(len(hr)))
